@@ -77,13 +77,16 @@ type c19Op struct {
 }
 
 type c19Case struct {
-	lvl    int
-	dyn    bool // HandlerOptions.Level is a *slog.LevelVar (initialised to lvl), not the constant lvl
-	src    bool // HandlerOptions.AddSource, and every record carries a program counter (suffix "s")
-	repl   bool // HandlerOptions.ReplaceAttr = c19Replace (suffix "r")
-	attrs  []c19Attr
-	recs   []c19Rec
-	script []c19Op
+	lvl  int
+	dyn  bool // HandlerOptions.Level is a *slog.LevelVar (initialised to lvl), not the constant lvl
+	src  bool // HandlerOptions.AddSource, and every record carries a program counter (suffix "s")
+	repl bool // HandlerOptions.ReplaceAttr = c19Replace (suffix "r")
+	// HandlerOptions.ReplaceAttr removes every built-in attribute (time, level, msg, source): the
+	// text line is the attributes alone, and empty for a record without any (suffix "R")
+	replAll bool
+	attrs   []c19Attr
+	recs    []c19Rec
+	script  []c19Op
 }
 
 func c19ParseIDs(s string) (ids []int) {
@@ -112,14 +115,15 @@ func c19Parse(line string) (c *c19Case) {
 	if len(f) < 5 || f[0] != "C19.tree" {
 		panic("bad C19.tree case")
 	}
-	lvlTok, repl := strings.CutSuffix(f[1], "r")
+	lvlTok, replAll := strings.CutSuffix(f[1], "R")
+	lvlTok, repl := strings.CutSuffix(lvlTok, "r")
 	lvlTok, src := strings.CutSuffix(lvlTok, "s")
 	if strings.HasPrefix(lvlTok, "v") {
 		c = &c19Case{lvl: atoi(lvlTok[1:]), dyn: true}
 	} else {
 		c = &c19Case{lvl: atoi(lvlTok)}
 	}
-	c.src, c.repl = src, repl
+	c.src, c.repl, c.replAll = src, repl, replAll
 	if f[2] != "-" {
 		for _, a := range strings.Split(f[2], ",") {
 			p := strings.SplitN(a, ":", 3)
@@ -276,6 +280,37 @@ func c19Opts(src, repl bool, lvl slog.Leveler) *slog.HandlerOptions {
 	return o
 }
 
+func c19ReplaceAll(groups []string, a slog.Attr) slog.Attr {
+	if len(groups) == 0 && (a.Key == slog.TimeKey || a.Key == slog.LevelKey || a.Key == slog.MessageKey || a.Key == slog.SourceKey) {
+		return slog.Attr{}
+	}
+	return a
+}
+
+func (c *c19Case) opts(lvl slog.Leveler) *slog.HandlerOptions {
+	o := c19Opts(c.src, c.repl, lvl)
+	if c.replAll {
+		o.ReplaceAttr = c19ReplaceAll
+	}
+	return o
+}
+
+// refLine: what slog.TextHandler prints with this case's options.
+func (c *c19Case) refLine(level int, t time.Time, msg string, attrs []slog.Attr) []byte {
+	var buf bytes.Buffer
+	th := slog.NewTextHandler(&buf, c.opts(slog.Level(c.lvl)))
+	var pc uintptr
+	if c.src {
+		pc = c19PC()
+	}
+	r := slog.NewRecord(t, slog.Level(level), msg, pc)
+	r.AddAttrs(attrs...)
+	if err := th.Handle(context.Background(), r); err != nil {
+		panic(err)
+	}
+	return buf.Bytes()
+}
+
 func c19RefLineSrc(src bool, hlvl int, level int, t time.Time, msg string, attrs []slog.Attr) []byte {
 	return c19RefLineOpts(src, false, hlvl, level, t, msg, attrs)
 }
@@ -325,7 +360,7 @@ func (c *c19Case) refFor(rid int, path []int) (key string, line []byte) {
 	if len(ks) > 0 {
 		k = strings.Join(ks, ".")
 	}
-	return fmt.Sprintf("%d;%s", rid, k), c19RefLineOpts(c.src, c.repl, c.lvl, r.level, r.time(), string(r.msg), as)
+	return fmt.Sprintf("%d;%s", rid, k), c.refLine(r.level, r.time(), string(r.msg), as)
 }
 
 // line renders the case with a fresh oracle.
@@ -387,6 +422,9 @@ func (c *c19Case) line() string {
 	}
 	if c.repl {
 		lvl += "r"
+	}
+	if c.replAll {
+		lvl += "R"
 	}
 	return fmt.Sprintf("C19.tree %s %s %s %s %s", lvl, j(as), j(rs), j(ops), j(orc))
 }
@@ -483,7 +521,7 @@ func evalC19Tree(line string) Result {
 	}
 	cur, sets, dynEnabled := c.lvl, 0, false
 	notFrozen, notCurrent := "", "" // the first Enabled call that does not fit the reading
-	root := slogutil.NewJSONHybridHandler(w, c19Opts(c.src, c.repl, leveler))
+	root := slogutil.NewJSONHybridHandler(w, c.opts(leveler))
 	nodes := []slog.Handler{root}
 	paths := [][]int{nil}
 	recs := make([]slog.Record, len(c.recs))
@@ -1026,6 +1064,9 @@ func c19GenTree(rng *rand.Rand) string {
 	// about half of the trees hang off a *slog.LevelVar; cur is the level the tree is configured
 	// with at this point of the script, prev the one before the last Set
 	c := &c19Case{lvl: pick(rng, levels...), dyn: rng.IntN(2) == 0, src: rng.IntN(5) == 0, repl: rng.IntN(5) == 0}
+	if !c.repl && rng.IntN(6) == 0 {
+		c.replAll = true
+	}
 	c19HotKey = nil
 	if t, ok := dictTok(rng); ok && rng.IntN(3) == 0 {
 		c19HotKey = []byte(t)
@@ -1210,7 +1251,7 @@ func genC19(rng *rand.Rand, tier string) (cases []string) {
 // --- shrinker ------------------------------------------------------------------------
 
 func (c *c19Case) clone() *c19Case {
-	d := &c19Case{lvl: c.lvl, dyn: c.dyn, src: c.src, repl: c.repl}
+	d := &c19Case{lvl: c.lvl, dyn: c.dyn, src: c.src, repl: c.repl, replAll: c.replAll}
 	d.attrs = append(d.attrs, c.attrs...)
 	for _, r := range c.recs {
 		r2 := r
